@@ -589,6 +589,8 @@ type Exec struct {
 	guardN   map[string]int
 	ownsN    int
 	loopMutexPre []map[string]string
+	splitCases []string // `split` clauses of the contract, evaluated at entry
+	paramsAtEntry bool // evaluating an ensures clause: parameters denote entry values
 	regionStart token.Pos // where the verified region (body or fragment) begins: variables declared before it have an entry value
 	finalN   int
 	written  map[string]bool
@@ -675,8 +677,27 @@ func (ex *Exec) obligNamed(st *State, kind, name string, pos token.Pos, goal str
 		ob.ex = ex
 		ob.cases = []retState{{st: st.clone()}}
 	}
+	if len(ex.splitCases) > 0 {
+		for k, cs := range ex.splitAssumptions() {
+			o2 := *ob
+			o2.Name = fmt.Sprintf("%s[case %d]", ob.Name, k+1)
+			o2.Script = ex.eng.smt.script(append(append([]string{}, st.pc...), cs), not(goal), true)
+			ex.obs = append(ex.obs, &o2)
+		}
+		return ob
+	}
 	ex.obs = append(ex.obs, ob)
 	return ob
+}
+
+// splitAssumptions: one assumption per `split` case of the contract, then "none of the cases".
+func (ex *Exec) splitAssumptions() []string {
+	var out, negs []string
+	for _, c := range ex.splitCases {
+		out = append(out, c)
+		negs = append(negs, not(c))
+	}
+	return append(out, and(negs...))
 }
 
 // obligCases: goal must hold in every (state, goal) case.
@@ -697,6 +718,15 @@ func (ex *Exec) obligCases(kind, name string, pos token.Pos, states []*State, go
 	if kind == "post" {
 		ob.ex = ex
 		ob.cases = ex.rets
+	}
+	if len(ex.splitCases) > 0 {
+		for k, cs := range ex.splitAssumptions() {
+			o2 := *ob
+			o2.Name = fmt.Sprintf("%s[case %d]", ob.Name, k+1)
+			o2.Script = ex.eng.smt.script([]string{cs}, or(cases...), true)
+			ex.obs = append(ex.obs, &o2)
+		}
+		return ob
 	}
 	ex.obs = append(ex.obs, ob)
 	return ob
@@ -789,7 +819,13 @@ func (eng *Engine) verify(c *Contract, prop string) (rep *FuncReport, err error)
 	fi := eng.findFunc(c.Func)
 	rep = &FuncReport{Func: c.Func}
 	if fi == nil || fi.Body == nil {
-		return rep, fmt.Errorf("function %s not found in the working tree (renamed or removed?)", c.Func)
+		// the function the contract is written on is gone: everything the contract established is no longer
+		// established. That is a failed obligation of this contract (the other contracts are still checked).
+		ob := &Obligation{Prop: prop, Func: c.Func, Name: obName(c) + "/contract:applies-to-the-code", Kind: "contract", Pos: "", Result: "engine",
+			Text: "the function under contract exists in the working tree; failed: function " + c.Func + " not found (renamed or removed without its contract?)"}
+		ob.Script = "(check-sat)\n"
+		rep.Obligations = []*Obligation{ob}
+		return rep, nil
 	}
 	rep.File = fi.File
 	ex := eng.newExec(fi, c, prop)
@@ -853,6 +889,10 @@ func (eng *Engine) verify(c *Contract, prop string) (rep *FuncReport, err error)
 			ex.lets[cl.LetName] = ex.evalClauseVal(st, cl, ex.entry, bodyPos, nil)
 		case "requires", "domain":
 			st.assume(ex.evalClause(st, cl, ex.entry, bodyPos, nil, nil))
+		case "split":
+			// case analysis over the inputs: every proof obligation of this contract is discharged once per
+			// `split` case and once more for "none of them" (so the cases need not be exhaustive)
+			ex.splitCases = append(ex.splitCases, ex.evalClause(st, cl, ex.entry, bodyPos, nil, nil))
 		}
 	}
 	// lock discipline: this goroutine holds no mutex when the function is entered, except what the contract's
